@@ -7,6 +7,7 @@ import (
 	"flag"
 	"fmt"
 	"os"
+	"strings"
 	"testing"
 	"time"
 
@@ -29,6 +30,7 @@ var (
 	fDet     = flag.Bool("vs.det", false, "print seed:loghash lines only (determinism self-test)")
 	fScratch = flag.String("vs.scratch", os.TempDir(), "scratch dir")
 	fKnown   = flag.String("vs.known", "", "known_findings.json")
+	fDirect  = flag.String("vs.directed", "", "comma-separated directories of recorded findings to re-execute first")
 	fRepDir  = flag.String("vs.replaydir", "", "where replay files go")
 	fRepoFP  = flag.String("vs.repofp", "", "repo fingerprint")
 	fCase    = flag.Uint64("vs.case", 0, "run exactly this case seed in generate mode, then replay it (debugging aid)")
@@ -118,7 +120,7 @@ func run(m *testing.T) int {
 		return 0
 	}
 	res := simkit.RunBatch(w, simkit.BatchOpts{Prop: *fProp, Tier: *fTier, Seed: *fSeed, From: *fFrom, To: *fTo,
-		Budget: *fBudget, ShrinkFor: *fShrink, ReplayDir: *fRepDir, KnownPath: *fKnown, RepoFP: *fRepoFP})
+		Budget: *fBudget, ShrinkFor: *fShrink, ReplayDir: *fRepDir, KnownPath: *fKnown, RepoFP: *fRepoFP, Directed: splitDirs(*fDirect)})
 	b, _ := json.Marshal(res)
 	if *fOut != "" {
 		if err := os.WriteFile(*fOut, b, 0o644); err != nil {
@@ -135,6 +137,13 @@ func run(m *testing.T) int {
 		return 1
 	}
 	return 0
+}
+
+func splitDirs(s string) []string {
+	if s == "" {
+		return nil
+	}
+	return strings.Split(s, ",")
 }
 
 func firstLine(s string) string {
